@@ -13,6 +13,7 @@ TRUSTED_BASE = [
     "axioms allowed in any property theorem: propext, Classical.choice, Quot.sound; no sorry/admit/native_decide/bv_decide/implemented_by/unsafe/own axioms (audited on every run)",
     "Lean code generator and runtime for the compiled line-protocol drivers (driver, pdriver, rdriver, cdriver)",
     "harness/gen_tables.py: reflection + AST extraction of declarative tables from the current source tree into lean/Rp2/Gen/*.lean",
+    "harness/gen_formulas.py: translator of the bodies of rp2's arithmetic getters, predicates and the three transaction constructors (Python AST -> Lean definitions, lean/Rp2/Gen/Formulas.lean); trusted for its attribute-to-model-field table and its rendering of RP2Decimal operators; a body of unknown shape is listed as untranslated (see coverage.translator) and tied by correspondence only",
     "correspondence harness (generators, canonicalisation, diff, shrinker, independent ODS reader): differential sampling; its input distribution is recorded in this file",
     "oracles (Python transcriptions of the theorem conclusions) are used only to find failing inputs, never to declare a property true",
     "modelled, not verified: CPython decimal/datetime/list.sort stability/dict order/heapq, dateutil.parser, prezzemolo.AVLTree, ezodf/lxml, argparse/configparser/gettext/babel, the OS and file system",
